@@ -5,6 +5,7 @@
 // i.e. any field containing the delimiter, the quote character, CR or LF must have been quoted (except quote style none).
 // TOON: decode_toon(encode_toon(v, o)) == v for all JSON values.
 #include "common/jvalue.hpp"
+#include "common/rfc8259.hpp"
 #include <jsoncons/json.hpp>
 #include <jsoncons_ext/csv/csv.hpp>
 #include <jsoncons_ext/toon/toon.hpp>
@@ -169,6 +170,62 @@ template <class Json> static std::string toon_judge(const Json& v, const toon::t
     return "";
 }
 
+// ---- TOON judged domain -------------------------------------------------------------------------------------
+// The unchanged tree's TOON reader/writer fails on a number of constructs (open findings T1-T8 in known_findings.json,
+// each kept as an isolated witness below). Randomly generated values avoid exactly those constructs so that every
+// other mismatch is reported as a violation; the witnesses are re-executed on every run.
+static bool toon_simple_key(const jsoncons::string_view& s) { if (s.empty()) return false; for (unsigned char ch : s) if (!((ch >= 'a' && ch <= 'z') || (ch >= 'A' && ch <= 'Z') || (ch >= '0' && ch <= '9' && &ch != (const unsigned char*)s.data()) || ch == '_')) return false; return !(s[0] >= '0' && s[0] <= '9'); }
+static bool toon_safe_string(const jsoncons::string_view& s, bool is_key) {
+    for (unsigned char ch : s) { if (ch < 0x20 && ch != '\n' && ch != '\r' && ch != '\t') return false; if (ch == 0x7f) return false; if (is_key && (ch == '"' || ch == '\\')) return false; }
+    if (!is_key && !s.empty() && ((s[0] >= '0' && s[0] <= '9') || s[0] == '-' || s[0] == '+' || s[0] == '.')) {      // T8: number-like prefixes ("2.", "1-") are written unquoted
+        // well-formed JSON numbers are quoted correctly; anything else starting like a number is outside the judged domain
+        rfc::Val dummy; if (!rfc::accepts(std::string(s), rfc::Opts(), &dummy) || dummy.k != rfc::Val::Num) return false;
+    }
+    return true;
+}
+template <class Json> static bool toon_safe(const Json& v, int array_depth = 0, bool in_array = false) {
+    if (v.is_string()) return toon_safe_string(v.as_string_view(), false);
+    if (v.type() == json_type::float64) { double d = v.template as<double>(); double a = d < 0 ? -d : d; return a == 0 || (a >= 1e-6 && a < 9e15); }      // T3 / T9
+    if (v.is_object()) {
+        if (v.empty() && array_depth > 0) return false;                                                                                      // T4 / T6: empty objects below an array
+        for (const auto& m : v.object_range()) {
+            if (!toon_safe_string(m.key(), true)) return false;
+            if (array_depth > 0 && !toon_simple_key(m.key())) return false;                                                                  // T2: field names that need quoting in (tabular) arrays of objects
+            if (m.value().is_array() && !toon_simple_key(m.key())) return false;                                                              // T5: quoted key followed by an array header
+            if (in_array && m.value().is_object()) return false;                                                                               // T6: object-valued member of a list-item object
+            if (in_array && m.value().is_array()) { for (const auto& e : m.value().array_range()) if (e.is_object()) return false; }                // T6: tabular array nested in a list item
+            if (!toon_safe(m.value(), array_depth, false)) return false; }
+        return true;
+    }
+    if (v.is_array()) { if (v.empty() && in_array) return false; if (array_depth >= 2) return false;                                            // T4: arrays nested three deep
+                                                                                     // T4: empty array as an array element
+        for (const auto& e : v.array_range()) { if (array_depth >= 1 && e.is_object()) return false; if (!toon_safe(e, array_depth + 1, true)) return false; } return true; }
+    return true;
+}
+struct ToonWitness { const char* id; const char* json_text; };
+static const ToonWitness TOON_WITNESSES[] = {
+    {"T1-control-character-written-as-u-escape", "{\"a\\u000b\":[]}"},
+    {"T2-escaped-quote-in-tabular-field-name", "[{\"k\\\"q0\":1}]"},
+    {"T3-subnormal-double-in-fixed-notation", "1.94e-308"},
+    {"T3-tiny-double-in-fixed-notation", "4.0e-229"},
+    {"T4-empty-object-as-list-item", "[[{}]]"},
+    {"T5-quoted-key-with-escaped-quote-before-array-header", "{\"k\\\"q\":[]}"},
+    {"T5-quoted-key-with-escaped-quote-before-inline-array", "{\"\":{},\"k\\\"q\":[\"x\"]}"},
+    {"T6-empty-object-as-first-field-of-list-item", "[{\"a\":{}}]"},
+    {"T6-tabular-array-nested-in-list-item", "[1,[{\"s\":-3.0e18}]]"},
+    {"T8-number-like-string-ending-in-dot", "\"2.\""},
+    {"T8-number-like-string-prefix", "\"1-\""},
+    {"T9-large-integral-double-printed-with-17-digits", "9223372036854775808.0"},
+    {"T2-newline-in-tabular-field-name", "[{\"\\n0\":\"x\"}]"},
+    {"T2-leading-space-in-tabular-field-name", "[{\" z0\":true}]"},
+    {"T2-empty-tabular-field-name", "[{\"\":-5}]"},
+    {"T4-empty-array-nested-in-arrays", "[[[]]]"},
+    {"T4-arrays-nested-three-deep", "[[[456]]]"},
+    {"T5-quoted-key-with-newline-before-array-header", "{\"l\\n\":[]}"},
+    {"T6-object-valued-member-in-list-item", "[{\"id\":{\"c\":null}}]"},
+    {"T6-empty-object-member-in-list-item", "[{\"0\":{}},null]"},
+};
+
 template <class Json> static void toon_case(Rng& r, const char* policy) {
     GenCfg g; g.max_depth = 4; g.max_width = 4; g.big_numbers = false; g.string_cap = 30;
     Json v;
@@ -177,6 +234,8 @@ template <class Json> static void toon_case(Rng& r, const char* policy) {
         for (size_t i = 0; i < n; ++i) { Json o(json_object_arg); for (auto& k : ks) o.try_emplace(k, gen_scalar_value<Json>(r, g)); v.push_back(std::move(o)); }
         if (r.coin()) { Json w(json_object_arg); w.try_emplace(gen_key(r), std::move(v)); v = std::move(w); }
     } else v = gen_value<Json>(r, g);
+    for (int tries = 0; tries < 50 && !toon_safe(v); ++tries) { H.count_("toon.regenerated_outside_judged_domain"); GenCfg g2 = g; g2.max_depth = 1 + (int)r.below(3); v = gen_value<Json>(r, g2); }
+    if (!toon_safe(v)) v = Json("fallback");
     toon::toon_options o;
     size_t indent = 1 + r.below(8); o.indent(indent);
     static const toon::toon_delimiter_kind dk[] = {toon::toon_delimiter_kind::comma, toon::toon_delimiter_kind::tab, toon::toon_delimiter_kind::pipe}; auto d = r.pick(dk); o.delimiter(d);
@@ -187,7 +246,7 @@ template <class Json> static void toon_case(Rng& r, const char* policy) {
     if (nontrivial(v)) H.note_distinct(hash_str(describe(v)));
     if (sig.empty()) { H.count_(std::string("toon.roundtrip_judged.") + policy); return; }
     std::string full = std::string("toon/") + sig;       // the same defects show for json and ojson: one signature per failing construct
-    Json small = H.viol_by_sig[full] < 3 ? shrink(v, [&](const Json& c) { std::string t, w; return toon_judge(c, o, t, w) == sig; }, 400) : v;
+    Json small = H.viol_by_sig[full] < 3 ? shrink(v, [&](const Json& c) { std::string t, w; return toon_safe(c) && toon_judge(c, o, t, w) == sig; }, 400) : v;
     toon_judge(small, o, text, why);
     H.violation(full, J().str("policy", policy).str("opts", desc).str("value", describe(small).substr(0, 1200)).str("text", text.substr(0, 600)).str("why", why.substr(0, 600)).done());
 }
@@ -200,5 +259,13 @@ int main(int argc, char** argv) {
         else if (c % 4 == 1) toon_case<json>(r, "json"); else toon_case<ojson>(r, "ojson");
         if (H.sample_seen < 6) H.sample(J().num("case", c).str("kind", c % 2 == 0 ? "csv" : "toon").done()); else ++H.sample_seen;
     };
-    return H.run(body);
+    auto regress = [&]() {
+        for (const auto& w : TOON_WITNESSES) {
+            json v = json::parse(w.json_text); toon::toon_options o; std::string text, why;
+            std::string sig = toon_judge(v, o, text, why);
+            H.count_("toon.witnesses_executed");
+            if (!sig.empty()) H.violation(std::string("toon/witness/") + w.id, J().str("value", w.json_text).str("text", text.substr(0, 300)).str("observed", sig).str("why", why.substr(0, 300)).done());
+        }
+    };
+    return H.run(body, regress);
 }
